@@ -14,7 +14,7 @@ CLAIM = dict(
     text='C13_line: for every token list and any two separator styles (indentation, arbitrary mixes of blanks / tabs / commas '
          'between tokens, optional padding around parentheses, trailing # comment) the lexer model returns the same tokens, hence '
          'the same parsed item; string/error lines may be indented freely; register spellings (number, xN, ABI alias) are '
-         'read alike by the generated lookup_register; decimal / hex / binary spellings are read alike by int(s, 0); '
+         'read alike by the generated lookup_register; decimal / hex / binary spellings are read alike by the int(s, 0) model (C13_int_spelling_wide: by induction on the digit loops for every 64-bit value); '
          'C13_imm_reg_loads/stores: imm(reg) and reg, imm parse to the SAME item for exactly the mnemonics of the generated '
          'BASE_OFFSET_INSTRUCTIONS table; C13_program: line-by-line token-equal versions of a program give the same result of the '
          'whole model (lex + parse + 16 passes), both modes ; C13_line_numbers_irrelevant: renaming the lines of the items by ANY function (what extra blank / comment lines do to the physical numbers) leaves bytes, labels and constants unchanged, errors name the renamed line (assemble_relabel through all 16 passes). Tie: model tokens / items vs the '
